@@ -300,13 +300,13 @@ def run(ctx):  # noqa: F811
     r11_4(ctx, ctx.model)
 
 
-def r11_5(ctx, m):
+def r11_5(ctx, m, rid="R11.5"):
     """the metric J^dagger J is Hermitian positive: scaling shortcut of SandwichOperator.make"""
     import copy
     from ..poly import cpoly, p_sym, p_add, p_mul, p_str
     SW = m.cls("nifty.cl.operators.sandwich_operator", "SandwichOperator")
     mk = SW.methods.get("make")
-    ctx.rule("R11.5", "SandwichOperator.make (which builds every likelihood metric J^dagger J): for a scaling bun with factor f the "
+    ctx.rule(rid, "SandwichOperator.make (which builds every likelihood metric J^dagger J): for a scaling bun with factor f the "
                       "cheese is scaled by |f|^2 = re^2 + im^2 (a real, non-negative number), otherwise the operator is "
                       "bun.adjoint @ cheese @ bun", floor=2)
     if mk is None:
@@ -320,7 +320,7 @@ def r11_5(ctx, m):
     scale_sites = find_nodes(cfg, lambda q: isinstance(q, ast.Call) and isinstance(q.func, ast.Attribute) and q.func.attr == "scale" and len(q.args) == 1)
     key = f"{mk.key}::scaling bun: cheese scaled by |factor|^2"
     if len(scale_sites) != 1:
-        ctx.und("R11.5", key, f"{len(scale_sites)} `.scale(...)` sites", mk)
+        ctx.und(rid, key, f"{len(scale_sites)} `.scale(...)` sites", mk)
     else:
         n, c = scale_sites[0]
         at = known_atoms(cfg, n.id)
@@ -335,16 +335,16 @@ def r11_5(ctx, m):
         try:
             got = cpoly(Sub().visit(copy.deepcopy(e)), {"__f": (p_sym("re"), p_sym("im"))})
             want = (p_add(p_mul(p_sym("re"), p_sym("re")), p_mul(p_sym("im"), p_sym("im"))), {})
-            ctx.check("R11.5", key, guarded and got == want,
+            ctx.check(rid, key, guarded and got == want,
                       f"factor = {src(e)} = ({p_str(got[0])}) + i({p_str(got[1])}) for f = re + i im; J^dagger J needs re^2 + im^2", mk, c)
         except KeyError as exc:
-            ctx.und("R11.5", key, f"term not understood: {exc}", mk, c)
+            ctx.und(rid, key, f"term not understood: {exc}", mk, c)
     # general branch
     ops = [nn for nn in cfg.nodes if nn.kind == "stmt" and isinstance(nn.ast, ast.Assign) and isinstance(nn.ast.value, ast.BinOp)
            and isinstance(nn.ast.value.op, ast.MatMult) and "adjoint" in src(nn.ast.value)]
     txt = [src(nn.ast.value).replace(" ", "") for nn in ops]
     cheese = pp[1]
-    ctx.check("R11.5", f"{mk.key}::general bun: op = bun.adjoint @ cheese @ bun", txt == [f"{bn}.adjoint@{cheese}@{bn}"], str(txt), mk)
+    ctx.check(rid, f"{mk.key}::general bun: op = bun.adjoint @ cheese @ bun", txt == [f"{bn}.adjoint@{cheese}@{bn}"], str(txt), mk)
 
 
 _run_c11c = run
